@@ -95,9 +95,11 @@ const PRELUDE = 'const { Comp, ns, x, y, xs, c, o, namedFn, vs, vsFoo, vsDefault
 
 // other attributes next to v-slots (props, never slots): a JSX element as attribute value re-enters the element code
 const CO = { none: ['', ''], bareAfter: ['', ' icon=<i id="b">inner</i>'], bareBefore: [' icon=<i id="b">inner</i>', ''], bracedAfter: ['', ' icon={<i id="b">inner</i>}'], compAfter: ['', ' icon=<Comp id="c">{x}</Comp> id="a"'], spreadBefore: [' {...o}', ''] };
+// how the children are laid out between the tags: lines that hold only indentation do not count as children
+const LAYOUTS = { inline: (ch) => ch, nlSpaces: (ch) => `\n    ${ch}\n  `, nlTabs: (ch) => `\n\t\t${ch}\n\t`, crlfTabs: (ch) => `\r\n\t${ch}\r\n`, nlMixed: (ch) => `\n \t ${ch}\n\t \t` };
 function render(c) {
   const tag = HOSTS[c.host];
-  const ch = SHAPES[c.shape].src;
+  const ch = SHAPES[c.shape].src === '' ? '' : LAYOUTS[c.lay || 'inline'](SHAPES[c.shape].src);
   const co = CO[c.co || 'none'];
   const attrs = `${co[0]}${VSLOTS[c.vslots]}${co[1]}`;
   let J = ch === '' ? `<${tag}${attrs} />` : `<${tag}${attrs}>${ch}</${tag}>`;
@@ -309,6 +311,10 @@ function spaces(tier) {
     bounds: { co_attributes: Object.keys(CO).filter((k) => k !== 'none'), hosts: ['Comp', 'member'], contexts: ['arrow', 'stmt'], note: 'the same product with another attribute before / after v-slots (incl. JSX elements as attribute values, bare and braced): the slots are what they are without it' },
     *gen() { for (const c of allCases()) if (['Comp', 'member'].includes(c.host) && ['arrow', 'stmt'].includes(c.ctx) && !c.opt) for (const co of Object.keys(CO)) if (co !== 'none') yield Object.assign({}, c, { co }); },
   }, {
+    name: 'L:child-layouts',
+    bounds: { layouts: Object.keys(LAYOUTS).filter((k) => k !== 'inline'), hosts: ['Comp', 'member'], contexts: ['arrow', 'stmt'], note: 'the same product with the children on a line of their own, indented with spaces, tabs or both, LF or CRLF: the slots are what they are when written inline' },
+    *gen() { for (const c of allCases()) if (['Comp', 'member'].includes(c.host) && ['arrow', 'stmt'].includes(c.ctx) && !c.opt) for (const lay of Object.keys(LAYOUTS)) if (lay !== 'inline') yield Object.assign({}, c, { lay }); },
+  }, {
     name: 'P:configured-pragma',
     bounds: { pragma: 'hh (a createVNode-compatible factory)', contexts: thorough ? 'all' : ['arrow', 'fn', 'stmt', 'loop'], vslots: thorough ? 'all' : ['none', 'obj'], note: 'the same product under a configured vnode factory: what the children become must not depend on who creates the vnodes' },
     *gen() { for (const c of allCases()) if (thorough || (['arrow', 'fn', 'stmt', 'loop'].includes(c.ctx) && ['none', 'obj'].includes(c.vslots))) yield Object.assign({}, c, { pg: true }); },
@@ -319,6 +325,7 @@ function* shrink(c) {
   // each dimension towards its simplest value (first entry), one at a time
   if (c.pg) yield Object.assign({}, c, { pg: false });
   if (c.co && c.co !== 'none') yield Object.assign({}, c, { co: 'none' });
+  if (c.lay && c.lay !== 'inline') yield Object.assign({}, c, { lay: 'inline' });
   if (c.ctx !== 'arrow') yield Object.assign({}, c, { ctx: 'arrow' });
   if (c.ctx !== 'arrow' && c.ctx !== 'stmt') yield Object.assign({}, c, { ctx: 'stmt' });
   if (c.host !== 'Comp') yield Object.assign({}, c, { host: 'Comp' });
@@ -332,7 +339,7 @@ function* shrink(c) {
 }
 
 function caseKey(c) {
-  return `${c.ctx}:<${HOSTS[c.host]}${c.vslots === 'none' ? '' : ' v-slots:' + c.vslots}>${c.shape}${SHAPES[c.shape].dyn ? '=' + c.kind : ''}{${c.eos ? 'eos' : '-'}${c.opt ? '+optimize' : ''}${c.pg ? '+pragma' : ''}}${c.co && c.co !== 'none' ? ' +' + c.co : ''}`;
+  return `${c.ctx}:<${HOSTS[c.host]}${c.vslots === 'none' ? '' : ' v-slots:' + c.vslots}>${c.shape}${SHAPES[c.shape].dyn ? '=' + c.kind : ''}{${c.eos ? 'eos' : '-'}${c.opt ? '+optimize' : ''}${c.pg ? '+pragma' : ''}}${c.co && c.co !== 'none' ? ' +' + c.co : ''}${c.lay && c.lay !== 'inline' ? ' @' + c.lay : ''}`;
 }
 
 module.exports = {
